@@ -15,6 +15,7 @@ import (
 	"github.com/cockroachdb/errors"
 	"github.com/cockroachdb/pebble"
 	"github.com/cockroachdb/pebble/objstorage/objstorageprovider"
+	"github.com/cockroachdb/pebble/objstorage/remote"
 	"github.com/cockroachdb/pebble/sstable"
 	"github.com/cockroachdb/pebble/sstable/block"
 	"github.com/cockroachdb/pebble/sstable/tablefilters/bloom"
@@ -107,6 +108,7 @@ type dbHarness struct {
 	faultsStopped bool
 	rotInc        *simrt.Inc // side incarnation reading a damaged copy (C27)
 	delays        int
+	extStore      remote.Storage // external object store (survives crashes: it is remote)
 	faultAnnounced bool
 	opening       bool // pebble.Open of the current incarnation is running
 	openFailed    bool // ... has returned an error
@@ -291,6 +293,12 @@ func (h *dbHarness) makeOptionsOn(disk *simfs.Disk) *pebble.Options {
 		o.ValueSeparationPolicy = func() pebble.ValueSeparationPolicy {
 			return pebble.ValueSeparationPolicy{Enabled: true, MinimumSize: min, MinimumMVCCGarbageSize: min, MaxBlobReferenceDepth: 5, RewriteMinimumAge: 0, GarbageRatioLowPriority: 0.1, GarbageRatioHighPriority: 0.3}
 		}
+	}
+	if c.ExtIngest {
+		if h.extStore == nil {
+			h.extStore = remote.NewInMem()
+		}
+		o.RemoteStorage = remote.MakeSimpleFactory(map[remote.Locator]remote.Storage{remote.MakeLocator("ext"): h.extStore})
 	}
 	if c.WALFailover {
 		fo := &pebble.WALFailoverOptions{Secondary: wal.Dir{FS: disk, Dirname: "wal2"}}
@@ -595,6 +603,8 @@ func (h *dbHarness) exec(op *DBOp) {
 		h.execArmFault(op)
 	case "armstall":
 		h.execArmStall(op)
+	case "extingest":
+		h.execExtIngest(op)
 	case "aflush":
 		// an asynchronous flush: the following operations overlap it
 		if _, err := h.db.AsyncFlush(); err != nil {
@@ -1239,3 +1249,54 @@ func writeTrace(s *simrt.Sim) {
 }
 
 var _ = simsync.Mutex{}
+
+// execExtIngest writes a table to the external object store and ingests it with
+// IngestExternalFiles, optionally under a synthetic suffix. The model applies
+// the equivalent batch: one Set per key, at prefix+synthetic suffix.
+func (h *dbHarness) execExtIngest(op *DBOp) {
+	if h.extStore == nil || h.db.FormatMajorVersion() < pebble.FormatSyntheticPrefixSuffix {
+		return
+	}
+	gi := h.newGroup("ingest", op.C)
+	h.nExt++
+	name := fmt.Sprintf("ext-%06d.sst", h.nExt)
+	ow, err := h.extStore.CreateObject(name)
+	if err != nil {
+		simrt.Fail("tooling:extingest", err.Error())
+	}
+	wopts := h.opts.MakeWriterOptions(0, h.db.TableFormat())
+	w := sstable.NewWriter(objstorageprovider.NewRemoteWritable(ow), wopts)
+	for i := range op.Sub {
+		m := h.toModel(&op.Sub[i], nil)
+		if err := w.Set([]byte(m.Key), []byte(m.Val)); err != nil {
+			simrt.Fail("tooling:extingest", err.Error())
+		}
+		if op.Suf != "" {
+			m.Key = kvmodel.Prefix(m.Key) + op.Suf
+		}
+		gi.g.Ops = append(gi.g.Ops, m)
+	}
+	if err := w.Close(); err != nil {
+		simrt.Fail("tooling:extingest", err.Error())
+	}
+	size, err := h.extStore.Size(name)
+	if err != nil {
+		simrt.Fail("tooling:extingest", err.Error())
+	}
+	gi.startIdx = h.disk.LogLen()
+	ef := pebble.ExternalFile{Locator: remote.MakeLocator("ext"), ObjName: name, Size: uint64(size), StartKey: []byte(op.Key), EndKey: []byte(op.End), HasPointKey: true}
+	if op.Suf != "" {
+		ef.SyntheticSuffix = []byte(op.Suf)
+	}
+	if _, err := h.db.IngestExternalFiles(context.Background(), []pebble.ExternalFile{ef}); err != nil {
+		h.resolveFailed(gi, "extingest", err)
+		return
+	}
+	gi.sync = true
+	h.commitModel(gi)
+	h.count("probe.ext_ingest", 1)
+	if op.Suf != "" {
+		h.count("probe.ext_ingest_synthetic_suffix", 1)
+	}
+	h.checkTouched(gi)
+}
